@@ -55,11 +55,16 @@ def gen_shapes(ck, thorough):
         'p2sh-p2wsh': push(b'\x00\x20' + ref.sha256(redeem)),
         'data75': push(rnd(74)), 'len252': push(rnd(250)), 'len253': push(rnd(251)), 'nonstd': bytes([0x6a]) + push(rnd(9)),
         'ops': bytes([0x51, 0x52, 0x93, 0x53, 0x87]),
+        'p2pkh-single': push(sigs[0][:-1] + b'\x03') + push(keys[0][1]), 'p2pk-acp': push(sigs[1][:-1] + b'\x81'),
     }
     wits = {
         'none': [], 'one-empty': [b''], 'one-zero': [b'\x00'], 'one-01': [b'\x01'], 'p2wpkh': [sigs[0], keys[0][1]],
         'p2wsh-multisig': [b'', sigs[0], sigs[1], redeem], 'two-small': [b'\x51', b'\x02\x03'], 'item253': [rnd(253), b'\x51'],
         'empty-and-key': [b'', keys[1][1]],
+        # signatures with other hash types (SINGLE, NONE|ANYONECANPAY, ALL|ANYONECANPAY) are carried as they are
+        'p2wpkh-single': [sigs[0][:-1] + b'\x03', keys[0][1]], 'p2wpkh-none-acp': [sigs[0][:-1] + b'\x82', keys[0][1]],
+        'p2wpkh-all-acp': [sigs[0][:-1] + b'\x81', keys[0][1]],
+        'p2wsh-multisig-mixed': [b'', sigs[0][:-1] + b'\x02', sigs[1][:-1] + b'\x83', redeem],
     }
     out_scripts = {
         'p2pkh': b'\x76\xa9\x14' + h20 + b'\x88\xac', 'p2sh': b'\xa9\x14' + h20 + b'\x87', 'p2wpkh': b'\x00\x14' + h20,
@@ -87,9 +92,9 @@ def gen_shapes(ck, thorough):
         if sk == 'empty':
             return True
         if sk == 'p2sh-p2wpkh':
-            return wk in ('p2wpkh', 'empty-and-key')
+            return wk in ('p2wpkh', 'empty-and-key', 'p2wpkh-single', 'p2wpkh-none-acp', 'p2wpkh-all-acp')
         if sk == 'p2sh-p2wsh':
-            return wk in ('p2wsh-multisig',)
+            return wk in ('p2wsh-multisig', 'p2wsh-multisig-mixed')
         return False
     shapes = []
     # every input script class x witness class (single input), every output class
@@ -121,6 +126,16 @@ def gen_shapes(ck, thorough):
             spec.append((sk, rng.choice([w for w in wk_list if compatible(sk, w)]), False))
         outs = [rng.choice(list(out_scripts)) for _ in range(rng.randrange(1, 4))]
         shapes.append((mk(spec, outs, rng.randrange(5), rng.randrange(5)), ('mix', k, tuple(w for _, w, _ in spec))))
+    # lengths at the CompactSize boundary 0xffff: output script, input script (coinbase), witness item
+    for ln in (65534, 65535, 65536):
+        if ln != 65535 and not thorough:
+            continue
+        big = b'\x6a\x4d' + (ln - 4).to_bytes(2, 'little') + rnd(ln - 4) if ln - 4 <= 65535 else b'\x6a' + rnd(ln - 1)
+        out_scripts['big'] = big[:ln]
+        wits['bigitem'] = [rnd(ln), b'\x51']
+        shapes.append((mk([('p2pkh', 'none', False)], ['big', 'p2wpkh'], 1, 1), ('out-len', ln)))
+        shapes.append((mk([('empty', 'bigitem', False)], ['p2wpkh'], 2, 2), ('witness-item-len', ln)))
+        del out_scripts['big'], wits['bigitem']
     # counts across the CompactSize boundary
     for nin, nout in ((252, 1), (253, 1), (1, 252), (1, 253), (253, 253)) + (((254, 2), (2, 300), (300, 1)) if thorough else ()):
         for seg in (False, True):
